@@ -780,6 +780,9 @@ func init() {
 				// the real witness on SQLite; one write of the feeder's update fails inside the driver (the database is busy)
 				ex["sqlite"], ex["execfail"] = 1, 1
 			}
+			if ex["real"] == 1 && ex["wsize"] < 0 && r.Chance(0.4) {
+				ex["sqlite"] = 1 // first use against the real witness on SQLite: "nothing stored yet" as that store words it
+			}
 			if ex["real"] == 1 && ex["wsize"] >= 0 && r.Chance(0.3) && notes["cp"] == "" {
 				ex["compete"] = 1
 			}
